@@ -39,6 +39,9 @@ func probeMain() {
 		if os.Getenv("C05_PROBE_RACE") != "" {
 			r.Race = true
 		}
+		if v, _ := strconv.Atoi(os.Getenv("C05_PROBE_COPYSTALL")); v > 0 {
+			r.CopyEndStallUS = v
+		}
 		if os.Getenv("C05_PROBE_REPEAT") != "" && i%2 == 1 {
 			r.Reps = 2
 		}
@@ -61,6 +64,18 @@ func probeMain() {
 			rr.Res.HoldsWaited, rr.Res.HoldsExpired, rr.Res.NonQuiescent, rr.Res.Sleeps, rr.Races)
 	}
 	for i, rr := range recs {
+		if len(rr.Res.Copies) > 0 {
+			bad := 0
+			for _, cp := range rr.Res.Copies {
+				if cp.Immediate != cp.Settled || (cp.Expected != "" && cp.Settled != cp.Expected) {
+					bad++
+				}
+			}
+			fmt.Printf("run %d copies: ends=%v stalls=%d observed=%d immediate!=settled/expected: %d\n", i, rr.Res.CopyEnds, rr.Res.CopyEndStalls, len(rr.Res.Copies), bad)
+			for _, cp := range rr.Res.Copies {
+				fmt.Printf("   r%d %-17s gpu%d kernel@%d size=%d completed on %s imm==settled:%v settled==expected:%v\n", cp.Round, cp.Op, cp.GPU, cp.KernelGPU, cp.Size, cp.CompletedOn, cp.Immediate == cp.Settled, cp.Expected == "" || cp.Settled == cp.Expected)
+			}
+		}
 		for k2, rp := range rr.Reps {
 			d := diffMetrics(rr.Metrics, rp.Metrics)
 			fmt.Printf("run %d repetition %d vs 1: t_end %.9e vs %.9e, bufs equal=%v, %d metric rows differ; by what: %v %s\n", i, k2+2,
